@@ -12,7 +12,7 @@ Ltac unfold_poly := cbv [select_faces select mapMo nth_error
    poly_faces_tet poly_faces_hex poly_faces_prism poly_faces_pyr permute_tet
    polyhedron_vol_fan polyhedron_vol_centroid face_vol_fan face_fan face_vol_centroid tsum vmean
    vsum cyc_pairs pairs_from last fold_left map fst snd vzero of_nat_T List.length Z.of_nat
-   Pos.of_succ_nat Pos.succ option_map].
+   Pos.of_succ_nat Pos.succ option_map shift_faces_if faces_origin].
 Ltac poly_tac := intros; destruct_pts; unfold_poly; f_equal; unfold_all; field.
 
 (* ---- centroid mode: the face list of to_polyhedron has, for ALL coordinates,
@@ -74,6 +74,39 @@ Lemma poly_fan_ref_hex :
     (select_faces [(0,0,0); (1,0,0); (1,1,0); (0,1,0); (0,0,1); (1,0,1); (1,1,1); (0,1,1)] poly_faces_hex)
   = Some 1.
 Proof. unfold_poly; f_equal; unfold_all; field. Qed.
+
+(* ---- the face lists are closed, so both polyhedron volumes are independent of
+        the origin of the fans: subtracting the first node of the first face (what
+        the repaired numba cores do) changes nothing, for ALL coordinates *)
+Ltac shift_tac := cbv zeta; intros; destruct_pts; unfold_poly; split; f_equal; unfold_all; field.
+Lemma poly_shift_tet p0 p1 p2 p3 :
+  let fs := select_faces [p0;p1;p2;p3] poly_faces_tet in
+  option_map (fun f => polyhedron_vol_fan ROps (shift_faces_if ROps true f)) fs
+    = option_map (polyhedron_vol_fan ROps) fs /\
+  option_map (fun f => polyhedron_vol_centroid ROps (shift_faces_if ROps true f)) fs
+    = option_map (polyhedron_vol_centroid ROps) fs.
+Proof. shift_tac. Qed.
+Lemma poly_shift_pyr p0 p1 p2 p3 p4 :
+  let fs := select_faces [p0;p1;p2;p3;p4] poly_faces_pyr in
+  option_map (fun f => polyhedron_vol_fan ROps (shift_faces_if ROps true f)) fs
+    = option_map (polyhedron_vol_fan ROps) fs /\
+  option_map (fun f => polyhedron_vol_centroid ROps (shift_faces_if ROps true f)) fs
+    = option_map (polyhedron_vol_centroid ROps) fs.
+Proof. shift_tac. Qed.
+Lemma poly_shift_prism p0 p1 p2 p3 p4 p5 :
+  let fs := select_faces [p0;p1;p2;p3;p4;p5] poly_faces_prism in
+  option_map (fun f => polyhedron_vol_fan ROps (shift_faces_if ROps true f)) fs
+    = option_map (polyhedron_vol_fan ROps) fs /\
+  option_map (fun f => polyhedron_vol_centroid ROps (shift_faces_if ROps true f)) fs
+    = option_map (polyhedron_vol_centroid ROps) fs.
+Proof. shift_tac. Qed.
+Lemma poly_shift_hex p0 p1 p2 p3 p4 p5 p6 p7 :
+  let fs := select_faces [p0;p1;p2;p3;p4;p5;p6;p7] poly_faces_hex in
+  option_map (fun f => polyhedron_vol_fan ROps (shift_faces_if ROps true f)) fs
+    = option_map (polyhedron_vol_fan ROps) fs /\
+  option_map (fun f => polyhedron_vol_centroid ROps (shift_faces_if ROps true f)) fs
+    = option_map (polyhedron_vol_centroid ROps) fs.
+Proof. shift_tac. Qed.
 
 (* ---- tables: closed, over the element's own nodes *)
 Lemma poly_tables_closed :
